@@ -423,17 +423,19 @@ theorem C11_text_splice (t : List Byte) :
     (unsplice BSL LF t = t → removeBackslashNewline t = t) :=
   ⟨splice_lines t 0, by have := splice_count t 0; simpa [removeBackslashNewline] using this, splice_id t⟩
 
-/-- **C11 (universal character names).**  `\uXXXX` / `\UXXXXXXXX` (after text without a backslash) is replaced by
-    the `encode_utf8` bytes of the value of its digits — by `C11_utf8_layout` the RFC 3629 sequence, i.e. exactly the bytes
+/-- **C11 (universal character names).**  `\uXXXX` / `\UXXXXXXXX` (after text without a backslash; value neither 0 nor the new-line character, which the code leaves
+    alone and C11 6.4.3 disallows anyway) is replaced by the `encode_utf8` bytes of the value of its digits — by `C11_utf8_layout` the RFC 3629 sequence, i.e. exactly the bytes
     of the same character written directly — and the rest of the text is processed as if it stood alone. -/
 theorem C11_text_ucn (pre post : List Byte) (d0 d1 d2 d3 d4 d5 d6 d7 : Byte) (hpre : BSL ∉ pre)
     (h0 : isXDigit d0 = true) (h1 : isXDigit d1 = true) (h2 : isXDigit d2 = true) (h3 : isXDigit d3 = true)
     (h4 : isXDigit d4 = true) (h5 : isXDigit d5 = true) (h6 : isXDigit d6 = true) (h7 : isXDigit d7 = true) :
     (digitsValue 16 [hexVal d0, hexVal d1, hexVal d2, hexVal d3] ≠ 0 →
+     digitsValue 16 [hexVal d0, hexVal d1, hexVal d2, hexVal d3] ≠ 10 →
       convertUniversalChars (pre ++ BSL :: 117#8 :: d0 :: d1 :: d2 :: d3 :: post) =
         pre ++ encodeUtf8 (BitVec.ofNat 32 (digitsValue 16 [hexVal d0, hexVal d1, hexVal d2, hexVal d3])) ++
           convertUniversalChars post) ∧
     (digitsValue 16 [hexVal d0, hexVal d1, hexVal d2, hexVal d3, hexVal d4, hexVal d5, hexVal d6, hexVal d7] ≠ 0 →
+     digitsValue 16 [hexVal d0, hexVal d1, hexVal d2, hexVal d3, hexVal d4, hexVal d5, hexVal d6, hexVal d7] ≠ 10 →
       convertUniversalChars (pre ++ BSL :: 85#8 :: d0 :: d1 :: d2 :: d3 :: d4 :: d5 :: d6 :: d7 :: post) =
         pre ++ encodeUtf8 (BitVec.ofNat 32
             (digitsValue 16 [hexVal d0, hexVal d1, hexVal d2, hexVal d3, hexVal d4, hexVal d5, hexVal d6, hexVal d7])) ++
